@@ -339,6 +339,24 @@ func runHistory(cc crashCase, which string) (sig, detail string, st historyStats
 		} else if sp.Chunk+in.ChunkDelta >= 1 {
 			sp.Chunk += in.ChunkDelta
 		}
+		if in.Kind == "cut" {
+			// one data stream ends in mid-frame (position: a fraction of what that stream carried
+			// in the uninterrupted run) while the others go on; the process survives
+			sp.Kind, sp.KillAt, sp.KillSite = "cut", 0, ""
+			var ords []int
+			for o, n := range pc.Result.StreamBytes {
+				if o >= 1 && n > 0 {
+					ords = append(ords, o)
+				}
+			}
+			sort.Ints(ords)
+			if len(ords) == 0 {
+				sp.Kind = "none"
+			} else {
+				o := ords[int(in.At*1000)%len(ords)]
+				sp.CutOrdinal, sp.CutOffset = o, int64(in.At*float64(pc.Result.StreamBytes[o]))
+			}
+		}
 		if in.Kind == "wfail" {
 			// writes to any file fail beyond an offset inside the largest file (disk-full like fault)
 			maxSize := 0
@@ -398,6 +416,14 @@ func runHistory(cc crashCase, which string) (sig, detail string, st historyStats
 			}
 			if s != "" && which == "C05" {
 				return s, desc + ", killed at " + last.Site + ": " + d, st, nil
+			}
+		} else if in.Kind == "cut" && sp.Kind == "cut" {
+			st.sites["stream-cut-run"]++
+			s, d, bits, unfl := c05Inspect(e, oc, loadable)
+			st.setBits += bits
+			st.unflushed += unfl
+			if s != "" && which == "C05" {
+				return s, desc + fmt.Sprintf(", data stream %d ended at byte %d while the others went on: ", sp.CutOrdinal, sp.CutOffset) + d, st, nil
 			}
 		} else if in.Kind == "drop" {
 			st.drops++
@@ -467,6 +493,16 @@ func runHistory(cc crashCase, which string) (sig, detail string, st historyStats
 	return "", "", st, nil
 }
 
+// crashKinds: "cut" (one data stream silently ends in mid-frame while the others go on) leaves
+// both endpoints waiting until the runner's idle detector gives up, about 15 s per run: it
+// is drawn in the thorough tier only.
+func crashKinds() []string {
+	if verifkit.Thorough() {
+		return []string{"kill", "kill", "kill", "kill", "drop", "drop", "wfail", "wfail", "cut"}
+	}
+	return []string{"kill", "kill", "kill", "drop", "wfail"}
+}
+
 func genCrashCase(t *rapid.T) crashCase {
 	x := xcase{Chunk: rapid.OneOf(rapid.IntRange(16, 512), rapid.SampledFrom([]int{16, 64, 100})).Draw(t, "chunk")}
 	x.Tree = verifnet.GenTree(t, x.Chunk, verifnet.GenOpts{MaxFiles: 4, MinFiles: 1, MaxChunks: 12})
@@ -481,7 +517,7 @@ func genCrashCase(t *rapid.T) crashCase {
 	n := rapid.IntRange(1, 3).Draw(t, "chain")
 	for i := 0; i < n; i++ {
 		cc.Chain = append(cc.Chain, interruption{
-			Kind:       rapid.SampledFrom([]string{"kill", "kill", "kill", "drop", "wfail"}).Draw(t, fmt.Sprintf("ikind%d", i)),
+			Kind:       rapid.SampledFrom(crashKinds()).Draw(t, fmt.Sprintf("ikind%d", i)),
 			At:         frac(t, fmt.Sprintf("iat%d", i)),
 			FlushEvery: rapid.SampledFrom([]int{0, 1, 1, 2, 3}).Draw(t, fmt.Sprintf("iflush%d", i)),
 			ExitFlush:  rapid.Bool().Draw(t, fmt.Sprintf("iexitflush%d", i)),
